@@ -63,8 +63,9 @@ def rule_r02d(ctx, P, r):
             expanded = []
             for i, how, ub in uses:
                 ctxs = contexts(i.res) if i.res else []
-                if ctxs and all(cd is not None for _, cd in ctxs):
-                    expanded += [(i, how, ub, bb_, cd) for bb_, cd in ctxs]
+                if ctxs:
+                    # the range check has to hold where the address is used, not where it is computed
+                    expanded += [(i, how, ub, bb_, cd) for bb_, cd in dict.fromkeys(ctxs)]
                 else:
                     expanded.append((i, how, ub, i.bb, None))
             for i, how, ub, at_bb, extra in expanded:
@@ -82,6 +83,16 @@ def rule_r02d(ctx, P, r):
                     # index - k >= 0 follows from the not-taken `index < k` branch
                     lo_ok = any(p == 'sge' and a == e and b == 'arg0' for p, a, b in F.facts) or (lo is not None and lo >= 0 and False)
                     lo_ok = lo_ok and True
+                if not (lo_ok and okub):
+                    # the same two bounds as linear facts: idx > n - 1, idx - k >= m, (idx | size) < 0 ... are range checks as well
+                    from ..guards import PolyFacts
+                    from ..poly import Poly as _P02
+                    PF = PolyFacts(P, f, at_bb, extra=[extra] if extra is not None else None)
+                    I_, K_, M_ = PF.pc.val(c.res), _P02.atom('arg0'), _P02.atom('arg1')
+                    if ub == 'k':
+                        lo_ok, okub = lo_ok or PF.ge0(I_), okub or PF.lt(I_, K_)
+                    else:
+                        lo_ok, okub = lo_ok or PF.ge0(I_ - K_), okub or PF.lt(I_, K_ + M_)
                 inst = f'{fname}: header index as {how} (line {i.line})'
                 if lo_ok and okub:
                     r.ok(inst, func=f.name, loc=i.loc, facts={'facts': F.mentions(e)})
@@ -103,47 +114,74 @@ def rule_r02d(ctx, P, r):
     headers = set(natural_loops(f).keys())
     from ..poly import PolyCtx as _PC02, Poly as Poly02
     pc02 = _PC02(P, f, C)
+    from ..guards import NEG as _NEG02
+    Mp = Poly02.atom('arg1')
+    def _q(pred, A, B):
+        return {'slt': B - A - Poly02.const(1), 'sle': B - A, 'sgt': A - B - Poly02.const(1), 'sge': A - B}.get(pred)
+    # the counters of missing fragments: the merges whose value subscripts a store into the missing list (last parameter), or walks it
+    Amiss, _ = derived_pointers(f, [f.params[-1][1]])
+    web = set()
+    for st_ in f.insts():
+        if st_.op == 'store' and st_.ops[1] in Amiss:
+            g_ = f.defs.get(strip_ptr_casts(f, st_.ops[1]))
+            while g_ is not None and g_.op in ('getelementptr', 'bitcast'):
+                if g_.op == 'getelementptr':
+                    web |= {a_ for a_ in pc02.val(g_.ops[-1]).atoms() if a_.startswith('%')}
+                g_ = f.defs.get(g_.ops[0])
+            if g_ is not None and g_.op == 'phi':
+                web.add(g_.res)
+    grew = True
+    while grew:
+        grew = False
+        for ph in f.insts():
+            if ph.op != 'phi':
+                continue
+            linked = {a_ for v_, _ in ph.incoming for a_ in ((pc02.val(v_).atoms() if not ph.ty.endswith('*') else {pc02.ptr(v_)[0]} | pc02.ptr(v_)[1].atoms())) if a_.startswith('%')}
+            if (ph.res in web and not linked <= web) or (ph.res not in web and linked & web):
+                web |= linked | {ph.res}
+                grew = True
+    def _count_minus_m(Q, c):
+        """Q == n - m - c for a counter n of the missing list (a counter, or the distance a write cursor has moved)"""
+        R = Q + Mp + Poly02.const(c)
+        ats = list(R.atoms())
+        return len(ats) == 1 and R == Poly02.atom(ats[0]) and ats[0] in web
     for i in f.insts():
         if i.op == 'icmp' and i.pred in ('sgt', 'sge', 'slt', 'sle') and i.bb not in headers:
-            a, b = C.val(strip_int_casts(f, i.ops[0])), C.val(strip_int_casts(f, i.ops[1]))
-            # the count of missing fragments may be a counter or the distance a write cursor has moved (pointer difference)
-            def is_count(o):
-                pv = pc02.val(o)
-                ats = list(pv.atoms())
-                return len(ats) == 1 and pv == Poly02.atom(ats[0]) and ats[0].startswith('%') and f.defs.get(ats[0]) is not None and f.defs[ats[0]].op == 'phi'
-            if a != 'arg1' and b == 'arg1' and not a.startswith('phi') and is_count(i.ops[0]):
-                a = 'phi' + a
-            elif b != 'arg1' and a == 'arg1' and not b.startswith('phi') and is_count(i.ops[1]):
-                b = 'phi' + b
-            if 'arg1' in (a, b) and (a.startswith('phi') or b.startswith('phi')):
-                # num_missing ? m
-                num_first = b == 'arg1'
-                strict_gt = (i.pred == 'sgt' and num_first) or (i.pred == 'slt' and not num_first)
-                weak = (i.pred == 'sge' and num_first) or (i.pred == 'sle' and not num_first)
-                # users: select or br
-                users = [u for u in f.insts() if i.res in u.ops]
-                for u in users:
-                    if u.op == 'select':
-                        tv = u.ops[1] if (strict_gt or weak) else u.ops[2]
-                        fv = u.ops[2] if (strict_gt or weak) else u.ops[1]
-                        found = True
-                        if strict_gt and re.match(r'-\d+$', tv) and fv == '0':
-                            r.ok('get_fragment_partition: num_missing > m => negative', func=f.name, loc=i.loc)
-                        elif weak and re.match(r'-\d+$', tv):
-                            r.fail('get_fragment_partition: num_missing > m', func=f.name, sig='refuses num_missing >= m', loc=i.loc,
-                                   msg='exactly m missing fragments is within tolerance but is refused')
-                        else:
-                            r.fail('get_fragment_partition: num_missing > m', func=f.name, sig=f'select({i.pred}) {tv},{fv}', loc=i.loc,
-                                   msg='more than m missing fragments is not turned into a negative return value')
-                    elif u.op == 'br':
-                        found = True
-                        tedge = f.blocks[u.targets[0]]
-                        vals = returns_via_edge(f, u.bb, tedge)
-                        if strict_gt and vals and all(isinstance(v, int) and v < 0 for v in vals):
-                            r.ok('get_fragment_partition: num_missing > m => negative', func=f.name, loc=i.loc)
-                        else:
-                            r.fail('get_fragment_partition: num_missing > m', func=f.name, sig=f'branch({i.pred}) returns {sorted(map(str, vals))}', loc=i.loc,
-                                   msg='more than m missing fragments is not refused with a negative value')
+            A_, B_ = pc02.val(i.ops[0]), pc02.val(i.ops[1])
+            Qt, Qf = _q(i.pred, A_, B_), _q(_NEG02[i.pred], A_, B_)
+            # which truth value of the comparison means "num_missing > m" (n - m - 1 >= 0); `weak`: it means n >= m
+            gt_when = True if _count_minus_m(Qt, 1) else (False if _count_minus_m(Qf, 1) else None)
+            weak_when = True if _count_minus_m(Qt, 0) else (False if _count_minus_m(Qf, 0) else None)
+            if gt_when is None and weak_when is None:
+                continue
+            users = [u for u in f.insts() if i.res in u.ops]
+            for u in users:
+                when = gt_when if gt_when is not None else weak_when
+                if u.op == 'select':
+                    tv, fv = (u.ops[1], u.ops[2]) if when else (u.ops[2], u.ops[1])
+                    found = True
+                    if gt_when is not None and re.match(r'-\d+$', tv) and fv == '0':
+                        r.ok('get_fragment_partition: num_missing > m => negative', func=f.name, loc=i.loc)
+                    elif gt_when is None and re.match(r'-\d+$', tv):
+                        r.fail('get_fragment_partition: num_missing > m', func=f.name, sig='refuses num_missing >= m', loc=i.loc,
+                               msg='exactly m missing fragments is within tolerance but is refused')
+                    else:
+                        r.fail('get_fragment_partition: num_missing > m', func=f.name, sig=f'select({i.pred}) {tv},{fv}', loc=i.loc,
+                               msg='more than m missing fragments is not turned into a negative return value')
+                elif u.op == 'br':
+                    found = True
+                    tedge = f.blocks[u.targets[0] if when else u.targets[1]]
+                    oedge = f.blocks[u.targets[1] if when else u.targets[0]]
+                    vals = returns_via_edge(f, u.bb, tedge)
+                    ovals = returns_via_edge(f, u.bb, oedge)
+                    if gt_when is not None and vals and all(isinstance(v, int) and v < 0 for v in vals) and ovals and all(v == 0 for v in ovals):
+                        r.ok('get_fragment_partition: num_missing > m => negative', func=f.name, loc=i.loc)
+                    elif gt_when is None and vals and all(isinstance(v, int) and v < 0 for v in vals):
+                        r.fail('get_fragment_partition: num_missing > m', func=f.name, sig='refuses num_missing >= m', loc=i.loc,
+                               msg='exactly m missing fragments is within tolerance but is refused')
+                    else:
+                        r.fail('get_fragment_partition: num_missing > m', func=f.name, sig=f'branch({i.pred}) returns {sorted(map(str, vals))}', loc=i.loc,
+                               msg='more than m missing fragments is not refused with a negative value')
     if not found:
         r.fail('get_fragment_partition: num_missing > m => negative', func=f.name, sig='missing-count check absent', loc=rets[0].loc,
                msg='get_fragment_partition never compares the number of missing fragments with m: back ends that do not report "too many erasures" '
